@@ -145,6 +145,16 @@ def rule_hosts(run, F, cfg):
     pf = F.fn("lists::parse_filter")
     hs = pf.calls(r"NetworkFilter::parse_hosts_style$")
     ok_g = bool(hs) and all(has_cond(dominating_conditions(pf, b), r"loads_network_rules\(", 1) for b, t in hs)
+    # both entry points strip a leading `www.` from the LOWER-CASED host (same normalisation order)
+    pn = F.fn("filters::network::NetworkFilter::parse")
+    trims = []
+    for g in [pn] + F.closures_of(pn.name) + [F.fn("filters::network::NetworkFilter::parse_hosts_style")]:
+        for b, t in g.calls(r"trim_start_matches$"):
+            if g.expr_operand(t["args"][1]) == '"www."':
+                trims.append((g.name.split("::")[-1], bool(re.search(r"to_(ascii_)?lowercase\(", g.expr_operand(t["args"][0])))))
+    run.ob("C11.3.hosts-delegation", "www-trim-after-lowercase", len(trims) >= 2 and all(o for _, o in trims),
+           "`www.` is stripped from the lower-cased hostname in NetworkFilter::parse as well as in parse_hosts_style, so "
+           f"`0.0.0.0 WWW.Example.com` and `||WWW.Example.com^` yield the same rule ({trims})", config=cfg)
     run.ob("C11.3.hosts-delegation", "hosts-arm-gated", ok_g,
            "in parse_filter the hosts arm reaches parse_hosts_style only under rule_types.loads_network_rules()", config=cfg)
 
